@@ -114,6 +114,24 @@ def generations(sid, rnd, n):
     return s.done()
 
 
+def oversized(sid, extra):
+    """next, response (above the size limit: 413, the caller gets the too-large error), next: the lifecycle goes on -
+    the second poll parks and is answered with the next invocation"""
+    L = 6 * 1024 * 1024 + 100
+    s = Scn(sid, ext=[], timeout_ms=3000)
+    s.meta(family="rtapi", kind="oversized-response", extra=extra)
+    s.init()
+    s.await_exec(kind="rt")
+    tags = {"rt": s.poll("rt")}
+    it = s.invoke(size=5, seed=1)
+    s.wait(tags["rt"])
+    s.call("rt", "response", id="current", size=L + extra, seed=3)
+    tags["rt"] = s.poll("rt")
+    s.wait(it)
+    s.round(tags, {})
+    return s.done()
+
+
 def scenarios(ctx):
     rnd = random.Random(ctx.seed * 7919 + 12)
     n = 60 if ctx.quick else 600
@@ -125,7 +143,7 @@ def scenarios(ctx):
 def run(ctx):
     ctx.level = "model_checking"
     ctx.assumptions += sc.ASSUME
-    sc.run_families(ctx, scenarios(ctx), "rtapi")
+    sc.run_families(ctx, scenarios(ctx) + [oversized("c12-big%d" % (i + 1), x) for i, x in enumerate((2, 4096) if ctx.quick else (1, 2, 3, 4096, 1024 * 1024))], "rtapi")
     # snapshot mode: the automaton has the restore states as well (restore/next parks until a restore is requested, is
     # answered, then "next" - also when the invocation arrived while the runtime was still busy with its restore hook)
     import c18
